@@ -85,6 +85,9 @@ int c_slice_read(ldb_slice_t *z, const uint8_t **xp, size_t *xn)
 __CPROVER_requires(__CPROVER_rw_ok(z, sizeof(*z)) && __CPROVER_rw_ok(xp, sizeof(*xp)) && __CPROVER_rw_ok(xn, sizeof(*xn)))
 __CPROVER_requires(__CPROVER_r_ok(*xp, *xn))
 __CPROVER_assigns(*z, *xp, *xn)
+/* re-binds the advanced cursor to the input object when the contract replaces a call */
+__CPROVER_ensures(__CPROVER_pointer_in_range_dfcc(__CPROVER_old(*xp), *xp, __CPROVER_old(*xp) + __CPROVER_old(*xn)))
+__CPROVER_ensures(__CPROVER_return_value == 1 ==> __CPROVER_pointer_in_range_dfcc(__CPROVER_old(*xp), z->data, __CPROVER_old(*xp) + __CPROVER_old(*xn)))
 __CPROVER_ensures(POST_LPS_RET(__CPROVER_return_value, __CPROVER_old(*xp), __CPROVER_old(*xn)))
 __CPROVER_ensures(POST_LPS_SLICE(__CPROVER_return_value, z->data, z->size, z->alloc, __CPROVER_old(*xp), __CPROVER_old(*xn)))
 __CPROVER_ensures(POST_LPS_CURSOR(__CPROVER_return_value, *xp, *xn, __CPROVER_old(*xp), __CPROVER_old(*xn)))
@@ -96,6 +99,9 @@ int c_slice_slurp(ldb_slice_t *z, ldb_slice_t *x)
 __CPROVER_requires(__CPROVER_rw_ok(z, sizeof(*z)) && __CPROVER_rw_ok(x, sizeof(*x)) && !__CPROVER_same_object(z, x))
 __CPROVER_requires(__CPROVER_r_ok(x->data, x->size))
 __CPROVER_assigns(*z, x->data, x->size)
+/* re-binds the advanced cursor to the input object when the contract replaces a call */
+__CPROVER_ensures(__CPROVER_pointer_in_range_dfcc(__CPROVER_old(x->data), x->data, __CPROVER_old(x->data) + __CPROVER_old(x->size)))
+__CPROVER_ensures(__CPROVER_return_value == 1 ==> __CPROVER_pointer_in_range_dfcc(__CPROVER_old(x->data), z->data, __CPROVER_old(x->data) + __CPROVER_old(x->size)))
 __CPROVER_ensures(POST_LPS_RET(__CPROVER_return_value, __CPROVER_old(x->data), __CPROVER_old(x->size)))
 __CPROVER_ensures(POST_LPS_SLICE(__CPROVER_return_value, z->data, z->size, z->alloc, __CPROVER_old(x->data), __CPROVER_old(x->size)))
 __CPROVER_ensures(POST_LPS_CURSOR(__CPROVER_return_value, x->data, x->size, __CPROVER_old(x->data), __CPROVER_old(x->size)))
@@ -108,6 +114,7 @@ int c_slice_import(ldb_slice_t *z, const ldb_slice_t *x)
 __CPROVER_requires(__CPROVER_rw_ok(z, sizeof(*z)) && __CPROVER_r_ok(x, sizeof(*x)) && !__CPROVER_same_object(z, x))
 __CPROVER_requires(__CPROVER_r_ok(x->data, x->size))
 __CPROVER_assigns(*z)
+__CPROVER_ensures(__CPROVER_return_value == 1 ==> __CPROVER_pointer_in_range_dfcc(x->data, z->data, x->data + x->size))
 __CPROVER_ensures(POST_LPS_RET(__CPROVER_return_value, x->data, x->size))
 __CPROVER_ensures(POST_LPS_SLICE(__CPROVER_return_value, z->data, z->size, z->alloc, x->data, x->size))
 __CPROVER_ensures(__CPROVER_return_value == 0 ==> (z->data == __CPROVER_old(z->data) && z->size == __CPROVER_old(z->size) && z->alloc == __CPROVER_old(z->alloc)))
@@ -123,6 +130,7 @@ uint8_t *c_slice_write(uint8_t *zp, const ldb_slice_t *x)
 __CPROVER_requires(__CPROVER_r_ok(x, sizeof(*x)) && x->size <= VERIF_U32_MAX && SLICE_OK(x))
 __CPROVER_requires(__CPROVER_w_ok(zp, V32_SIZE(x->size) + x->size))
 __CPROVER_assigns(__CPROVER_object_from(zp))
+__CPROVER_ensures(__CPROVER_pointer_in_range_dfcc(zp, __CPROVER_return_value, zp + V32_SIZE(x->size) + x->size))
 __CPROVER_ensures(__CPROVER_return_value == zp + V32_SIZE(x->size) + x->size)
 __CPROVER_ensures(LPS_PREFIX_IS(zp, x->size))
 __CPROVER_ensures(g_bk < x->size ==> zp[V32_SIZE(x->size) + g_bk] == x->data[g_bk])
@@ -131,7 +139,7 @@ __CPROVER_ensures(g_bk < x->size ==> zp[V32_SIZE(x->size) + g_bk] == x->data[g_b
 void c_slice_export(ldb_buffer_t *z, const ldb_slice_t *x)
 __CPROVER_requires(__CPROVER_rw_ok(z, sizeof(*z)) && BUF_PRE(z) && BUF_KEEP_PRE(z))
 __CPROVER_requires(__CPROVER_r_ok(x, sizeof(*x)) && x->size <= VERIF_U32_MAX && SLICE_OK(x))
-__CPROVER_assigns(z->data, z->size, z->alloc, __CPROVER_object_whole(z->data))
+__CPROVER_assigns(z->data, z->size, z->alloc, __CPROVER_object_upto(z->data, z->alloc))
 __CPROVER_frees(z->data)
 __CPROVER_ensures(BUF_POST(z))
 __CPROVER_ensures(z->size == __CPROVER_old(z->size) + V32_SIZE(x->size) + x->size)
@@ -206,7 +214,7 @@ __CPROVER_ensures(BUF_KEEP_POST(z, (zn < __CPROVER_old(z->size) ? zn : __CPROVER
 void c_buffer_set(ldb_buffer_t *z, const uint8_t *xp, size_t xn)
 __CPROVER_requires(__CPROVER_rw_ok(z, sizeof(*z)) && BUF_PRE(z) && xn <= VERIF_OBJ_MAX)
 __CPROVER_requires(xn == 0 || __CPROVER_r_ok(xp, xn))
-__CPROVER_assigns(z->data, z->size, z->alloc, __CPROVER_object_whole(z->data))
+__CPROVER_assigns(z->data, z->size, z->alloc, __CPROVER_object_upto(z->data, z->alloc))
 __CPROVER_frees(z->data)
 __CPROVER_ensures(BUF_POST(z) && z->size == xn)
 __CPROVER_ensures(z->alloc == (xn > __CPROVER_old(z->alloc) ? xn : __CPROVER_old(z->alloc)))
@@ -216,7 +224,7 @@ __CPROVER_ensures(g_bk < xn ==> z->data[g_bk] == xp[g_bk])
 void c_buffer_copy(ldb_buffer_t *z, const ldb_buffer_t *x)
 __CPROVER_requires(__CPROVER_rw_ok(z, sizeof(*z)) && BUF_PRE(z) && __CPROVER_r_ok(x, sizeof(*x)) && x->size <= VERIF_OBJ_MAX && SLICE_OK(x))
 __CPROVER_requires(!__CPROVER_same_object(z, x))
-__CPROVER_assigns(z->data, z->size, z->alloc, __CPROVER_object_whole(z->data))
+__CPROVER_assigns(z->data, z->size, z->alloc, __CPROVER_object_upto(z->data, z->alloc))
 __CPROVER_frees(z->data)
 __CPROVER_ensures(BUF_POST(z) && z->size == x->size)
 __CPROVER_ensures(z->alloc == (x->size > __CPROVER_old(z->alloc) ? x->size : __CPROVER_old(z->alloc)))
@@ -250,7 +258,7 @@ __CPROVER_ensures(z->data == zp && z->size == 0 && z->alloc == zn)
 
 void c_buffer_push(ldb_buffer_t *z, int x)
 __CPROVER_requires(__CPROVER_rw_ok(z, sizeof(*z)) && BUF_PRE(z) && BUF_KEEP_PRE(z))
-__CPROVER_assigns(z->data, z->size, z->alloc, __CPROVER_object_whole(z->data))
+__CPROVER_assigns(z->data, z->size, z->alloc, __CPROVER_object_upto(z->data, z->alloc))
 __CPROVER_frees(z->data)
 __CPROVER_ensures(BUF_POST(z) && z->size == __CPROVER_old(z->size) + 1)
 __CPROVER_ensures(BUF_GROW_POST(z, __CPROVER_old(z->size) + 1, __CPROVER_old(z->data), __CPROVER_old(z->alloc)))
@@ -261,7 +269,7 @@ __CPROVER_ensures(BUF_KEEP_POST(z, __CPROVER_old(z->size)))
 void c_buffer_append(ldb_buffer_t *z, const uint8_t *xp, size_t xn)
 __CPROVER_requires(__CPROVER_rw_ok(z, sizeof(*z)) && BUF_PRE(z) && BUF_KEEP_PRE(z) && xn <= VERIF_OBJ_MAX)
 __CPROVER_requires(xn == 0 || __CPROVER_r_ok(xp, xn))
-__CPROVER_assigns(z->data, z->size, z->alloc, __CPROVER_object_whole(z->data))
+__CPROVER_assigns(z->data, z->size, z->alloc, __CPROVER_object_upto(z->data, z->alloc))
 __CPROVER_frees(z->data)
 __CPROVER_ensures(BUF_POST(z) && z->size == __CPROVER_old(z->size) + xn)
 __CPROVER_ensures(BUF_GROW_POST(z, z->size, __CPROVER_old(z->data), __CPROVER_old(z->alloc)))
@@ -272,7 +280,7 @@ __CPROVER_ensures(g_bk < xn ==> z->data[__CPROVER_old(z->size) + g_bk] == xp[g_b
 void c_buffer_concat(ldb_buffer_t *z, const ldb_slice_t *x)
 __CPROVER_requires(__CPROVER_rw_ok(z, sizeof(*z)) && BUF_PRE(z) && BUF_KEEP_PRE(z))
 __CPROVER_requires(__CPROVER_r_ok(x, sizeof(*x)) && x->size <= VERIF_OBJ_MAX && SLICE_OK(x) && !__CPROVER_same_object(z, x))
-__CPROVER_assigns(z->data, z->size, z->alloc, __CPROVER_object_whole(z->data))
+__CPROVER_assigns(z->data, z->size, z->alloc, __CPROVER_object_upto(z->data, z->alloc))
 __CPROVER_frees(z->data)
 __CPROVER_ensures(BUF_POST(z) && z->size == __CPROVER_old(z->size) + x->size)
 __CPROVER_ensures(BUF_GROW_POST(z, z->size, __CPROVER_old(z->data), __CPROVER_old(z->alloc)))
@@ -282,7 +290,7 @@ __CPROVER_ensures(g_bk < x->size ==> z->data[__CPROVER_old(z->size) + g_bk] == x
 
 uint8_t *c_buffer_pad(ldb_buffer_t *z, size_t xn)
 __CPROVER_requires(__CPROVER_rw_ok(z, sizeof(*z)) && BUF_PRE(z) && BUF_KEEP_PRE(z) && xn <= VERIF_OBJ_MAX)
-__CPROVER_assigns(z->data, z->size, z->alloc, __CPROVER_object_whole(z->data))
+__CPROVER_assigns(z->data, z->size, z->alloc, __CPROVER_object_upto(z->data, z->alloc))
 __CPROVER_frees(z->data)
 __CPROVER_ensures(BUF_POST(z) && z->size == __CPROVER_old(z->size) + xn)
 __CPROVER_ensures(BUF_GROW_POST(z, z->size, __CPROVER_old(z->data), __CPROVER_old(z->alloc)))
@@ -293,7 +301,7 @@ __CPROVER_ensures(__CPROVER_return_value == (z->alloc == 0 ? (uint8_t *)NULL : z
 
 void c_buffer_fixed32(ldb_buffer_t *z, uint32_t x)
 __CPROVER_requires(__CPROVER_rw_ok(z, sizeof(*z)) && BUF_PRE(z) && BUF_KEEP_PRE(z))
-__CPROVER_assigns(z->data, z->size, z->alloc, __CPROVER_object_whole(z->data))
+__CPROVER_assigns(z->data, z->size, z->alloc, __CPROVER_object_upto(z->data, z->alloc))
 __CPROVER_frees(z->data)
 __CPROVER_ensures(BUF_POST(z) && z->size == __CPROVER_old(z->size) + 4)
 __CPROVER_ensures(BUF_GROW_POST(z, z->size, __CPROVER_old(z->data), __CPROVER_old(z->alloc)))
@@ -303,7 +311,7 @@ __CPROVER_ensures(IS_LE32(z->data + __CPROVER_old(z->size), x))
 
 void c_buffer_fixed64(ldb_buffer_t *z, uint64_t x)
 __CPROVER_requires(__CPROVER_rw_ok(z, sizeof(*z)) && BUF_PRE(z) && BUF_KEEP_PRE(z))
-__CPROVER_assigns(z->data, z->size, z->alloc, __CPROVER_object_whole(z->data))
+__CPROVER_assigns(z->data, z->size, z->alloc, __CPROVER_object_upto(z->data, z->alloc))
 __CPROVER_frees(z->data)
 __CPROVER_ensures(BUF_POST(z) && z->size == __CPROVER_old(z->size) + 8)
 __CPROVER_ensures(BUF_GROW_POST(z, z->size, __CPROVER_old(z->data), __CPROVER_old(z->alloc)))
@@ -313,7 +321,7 @@ __CPROVER_ensures(IS_LE64(z->data + __CPROVER_old(z->size), x))
 
 void c_buffer_varint32(ldb_buffer_t *z, uint32_t x)
 __CPROVER_requires(__CPROVER_rw_ok(z, sizeof(*z)) && BUF_PRE(z) && BUF_KEEP_PRE(z))
-__CPROVER_assigns(z->data, z->size, z->alloc, __CPROVER_object_whole(z->data))
+__CPROVER_assigns(z->data, z->size, z->alloc, __CPROVER_object_upto(z->data, z->alloc))
 __CPROVER_frees(z->data)
 __CPROVER_ensures(BUF_POST(z) && z->size == __CPROVER_old(z->size) + V32_SIZE(x))
 __CPROVER_ensures(BUF_GROW_POST2(z, z->size, __CPROVER_old(z->size) + 5, __CPROVER_old(z->data), __CPROVER_old(z->alloc)))
@@ -323,7 +331,7 @@ __CPROVER_ensures(V_WELLFORMED(z->data + __CPROVER_old(z->size), V32_SIZE(x)) &&
 
 void c_buffer_varint64(ldb_buffer_t *z, uint64_t x)
 __CPROVER_requires(__CPROVER_rw_ok(z, sizeof(*z)) && BUF_PRE(z) && BUF_KEEP_PRE(z))
-__CPROVER_assigns(z->data, z->size, z->alloc, __CPROVER_object_whole(z->data))
+__CPROVER_assigns(z->data, z->size, z->alloc, __CPROVER_object_upto(z->data, z->alloc))
 __CPROVER_frees(z->data)
 __CPROVER_ensures(BUF_POST(z) && z->size == __CPROVER_old(z->size) + V64_SIZE(x))
 __CPROVER_ensures(BUF_GROW_POST2(z, z->size, __CPROVER_old(z->size) + 10, __CPROVER_old(z->data), __CPROVER_old(z->alloc)))
@@ -341,6 +349,7 @@ uint8_t *c_buffer_write(uint8_t *zp, const ldb_buffer_t *x)
 __CPROVER_requires(__CPROVER_r_ok(x, sizeof(*x)) && x->size <= VERIF_U32_MAX && SLICE_OK(x))
 __CPROVER_requires(__CPROVER_w_ok(zp, V32_SIZE(x->size) + x->size))
 __CPROVER_assigns(__CPROVER_object_from(zp))
+__CPROVER_ensures(__CPROVER_pointer_in_range_dfcc(zp, __CPROVER_return_value, zp + V32_SIZE(x->size) + x->size))
 __CPROVER_ensures(__CPROVER_return_value == zp + V32_SIZE(x->size) + x->size)
 __CPROVER_ensures(LPS_PREFIX_IS(zp, x->size))
 __CPROVER_ensures(g_bk < x->size ==> zp[V32_SIZE(x->size) + g_bk] == x->data[g_bk])
@@ -349,7 +358,7 @@ __CPROVER_ensures(g_bk < x->size ==> zp[V32_SIZE(x->size) + g_bk] == x->data[g_b
 void c_buffer_export(ldb_buffer_t *z, const ldb_buffer_t *x)
 __CPROVER_requires(__CPROVER_rw_ok(z, sizeof(*z)) && BUF_PRE(z) && BUF_KEEP_PRE(z) && !__CPROVER_same_object(z, x))
 __CPROVER_requires(__CPROVER_r_ok(x, sizeof(*x)) && x->size <= VERIF_U32_MAX && SLICE_OK(x))
-__CPROVER_assigns(z->data, z->size, z->alloc, __CPROVER_object_whole(z->data))
+__CPROVER_assigns(z->data, z->size, z->alloc, __CPROVER_object_upto(z->data, z->alloc))
 __CPROVER_frees(z->data)
 __CPROVER_ensures(BUF_POST(z))
 __CPROVER_ensures(z->size == __CPROVER_old(z->size) + V32_SIZE(x->size) + x->size)
@@ -368,8 +377,10 @@ __CPROVER_ensures(g_bk < x->size ==> z->data[__CPROVER_old(z->size) + V32_SIZE(x
 int c_buffer_read(ldb_buffer_t *z, const uint8_t **xp, size_t *xn)
 __CPROVER_requires(__CPROVER_rw_ok(z, sizeof(*z)) && BUF_PRE(z) && __CPROVER_rw_ok(xp, sizeof(*xp)) && __CPROVER_rw_ok(xn, sizeof(*xn)))
 __CPROVER_requires(__CPROVER_r_ok(*xp, *xn))
-__CPROVER_assigns(z->data, z->size, z->alloc, __CPROVER_object_whole(z->data), *xp, *xn)
+__CPROVER_assigns(z->data, z->size, z->alloc, __CPROVER_object_upto(z->data, z->alloc), *xp, *xn)
 __CPROVER_frees(z->data)
+/* re-binds the advanced cursor to the input object when the contract replaces a call */
+__CPROVER_ensures(__CPROVER_pointer_in_range_dfcc(__CPROVER_old(*xp), *xp, __CPROVER_old(*xp) + __CPROVER_old(*xn)))
 __CPROVER_ensures(BUF_POST(z))
 __CPROVER_ensures(POST_LPS_RET(__CPROVER_return_value, __CPROVER_old(*xp), __CPROVER_old(*xn)))
 __CPROVER_ensures(POST_LPS_CURSOR(__CPROVER_return_value, *xp, *xn, __CPROVER_old(*xp), __CPROVER_old(*xn)))
@@ -380,8 +391,10 @@ __CPROVER_ensures(POST_BUFREAD(__CPROVER_return_value, z, __CPROVER_old(*xp), __
 int c_buffer_slurp(ldb_buffer_t *z, ldb_slice_t *x)
 __CPROVER_requires(__CPROVER_rw_ok(z, sizeof(*z)) && BUF_PRE(z) && __CPROVER_rw_ok(x, sizeof(*x)) && !__CPROVER_same_object(z, x))
 __CPROVER_requires(__CPROVER_r_ok(x->data, x->size))
-__CPROVER_assigns(z->data, z->size, z->alloc, __CPROVER_object_whole(z->data), x->data, x->size)
+__CPROVER_assigns(z->data, z->size, z->alloc, __CPROVER_object_upto(z->data, z->alloc), x->data, x->size)
 __CPROVER_frees(z->data)
+/* re-binds the advanced cursor to the input object when the contract replaces a call */
+__CPROVER_ensures(__CPROVER_pointer_in_range_dfcc(__CPROVER_old(x->data), x->data, __CPROVER_old(x->data) + __CPROVER_old(x->size)))
 __CPROVER_ensures(BUF_POST(z) && x->alloc == __CPROVER_old(x->alloc))
 __CPROVER_ensures(POST_LPS_RET(__CPROVER_return_value, __CPROVER_old(x->data), __CPROVER_old(x->size)))
 __CPROVER_ensures(POST_LPS_CURSOR(__CPROVER_return_value, x->data, x->size, __CPROVER_old(x->data), __CPROVER_old(x->size)))
@@ -392,7 +405,7 @@ __CPROVER_ensures(POST_BUFREAD(__CPROVER_return_value, z, __CPROVER_old(x->data)
 int c_buffer_import(ldb_buffer_t *z, const ldb_slice_t *x)
 __CPROVER_requires(__CPROVER_rw_ok(z, sizeof(*z)) && BUF_PRE(z) && __CPROVER_r_ok(x, sizeof(*x)) && !__CPROVER_same_object(z, x))
 __CPROVER_requires(__CPROVER_r_ok(x->data, x->size))
-__CPROVER_assigns(z->data, z->size, z->alloc, __CPROVER_object_whole(z->data))
+__CPROVER_assigns(z->data, z->size, z->alloc, __CPROVER_object_upto(z->data, z->alloc))
 __CPROVER_frees(z->data)
 __CPROVER_ensures(BUF_POST(z))
 __CPROVER_ensures(POST_LPS_RET(__CPROVER_return_value, x->data, x->size))
